@@ -194,6 +194,9 @@ static std::vector<Call> gen_script(int kind, const Params &p, const QueryPool &
         c.unsupported = !supported(kind, callop_to_op(c.op), p);
         if (c.op == C_LOCPREFIX || c.op == C_EXTPREFIX) c.arg = q.prefixes[r.below(q.prefixes.size())];
         if (c.op == C_LOCSUBSTR || c.op == C_EXTSUBSTR) c.arg = q.substrs[r.below(q.substrs.size())];
+        // an operation the kind does not provide has to say so for every argument, the empty pattern included
+        // (supported searches are never given one: several of them do not survive it, a pure-input matter)
+        if (c.unsupported && c.op != C_TABLE && r.chance(1, 5)) c.arg.clear();
         open_[h] = true;
       }
     }
